@@ -124,6 +124,27 @@ def handle (line : String) : String :=
       match Code4.construct str with
       | .error e => "err\t" ++ excName e
       | .ok o => s!"ok\t{showORat o.base_score}\t{match o.severity with | some x => String.ofList x | none => "None"}\t{showMap o.metrics}\t{showMap o.original_metrics}"
+  | ["R2", s] =>       -- the translated classmethod from_rh_vector on ANY string, then rh_vector() of the result
+    match decodeStr s with
+    | none => "bad-op"
+    | some str =>
+      match Code2.from_rh_vector str with
+      | .error e => "err\t" ++ excName e
+      | .ok o => s!"ok\t{showORat o.base_score}\t{showOStr (Code2.rh_vector o)}"
+  | ["R3", s] =>
+    match decodeStr s with
+    | none => "bad-op"
+    | some str =>
+      match Code3.from_rh_vector str with
+      | .error e => "err\t" ++ excName e
+      | .ok o => s!"ok\t{showORat o.base_score}\t{showOStr (Code3.rh_vector o)}"
+  | ["R4", s] =>
+    match decodeStr s with
+    | none => "bad-op"
+    | some str =>
+      match Code4.from_rh_vector str with
+      | .error e => "err\t" ++ excName e
+      | .ok o => s!"ok\t{showORat o.base_score}\t{showOStr (Code4.rh_vector o)}"
   | ["J4", s, num, den] =>   -- v4 compute_severity / as_json as translated, on the object the real code scored
     match decodeStr s, num.toInt?, den.toNat? with
     | some str, some n, some d =>
